@@ -274,8 +274,11 @@ def _judge_seq(name, payload, seq):
         try:
             _apply(msg, op, payload)
         except Exception as err:  # pylint: disable=broad-except
-            out.bad("operation-raises", f"{name}: {op} after {list(seq[:k])} raises {type(err).__name__}: {err}")
-            break
+            # only the operations C07 itself speaks about must succeed; the others (helpers,
+            # hashing, comparison, copying) are history elements here and other checks' subject
+            if op in ("str", "repr", "serialize", "identity", "payload"):
+                out.bad("operation-raises", f"{name}: {op} after {list(seq[:k])} raises {type(err).__name__}: {err}")
+                break
         try:
             ser = msg.serialize()
             clone = eval(repr(msg), {"RTCMMessage": RTCMMessage, "__builtins__": {}})  # pylint: disable=eval-used
